@@ -248,12 +248,41 @@ pub fn run(out: &mut Out, tier: &str, seed: u64) {
         track(false);
         let after = LIVE.load(std::sync::atomic::Ordering::SeqCst);
         out.count(if r.is_none() { "no-panic" } else { "PANIC" });
-        let verdict = match r {
-            Some(p) => format!("panic: {}", p.replace(['\t', '\n'], " ")),
-            None if after != before => format!("leak: {} allocations made by the entry points are still live", after - before),
-            None => "true".into(),
+        let verdict = match (r, crate::p_cas::take_overruns()) {
+            (Some(p), _) => format!("panic: {}", p.replace(['\t', '\n'], " ")),
+            (None, Some(o)) => format!("heap overrun: {o}"),
+            (None, None) if after != before => format!("leak: {} allocations made by the entry points are still live", after - before),
+            (None, None) => "true".into(),
         };
-        out.case("expect", &["every safe entry point returns and releases what it allocated", &hex(&input)], &verdict, input.len() > 2);
+        out.case("expect", &["every safe entry point returns, releases what it allocated and writes inside its heap blocks", &hex(&input)], &verdict, input.len() > 2);
+    }
+    // every width of escape sequence at every fill level of the scratch buffers strings and member names are decoded
+    // into (fresh buffers of a deserializer, the 128-byte key buffer of get / get_many / iterators and its doublings)
+    {
+        let _ = crate::p_cas::take_overruns();
+        let mut ks: Vec<usize> = (0..=40).collect();
+        ks.extend(56..=66);
+        ks.extend(120..=136);
+        ks.extend(248..=262);
+        if tier == "thorough" {
+            ks = (0..=600).collect();
+        }
+        for &k in &ks {
+            for esc in ["\\n", "\\u00e9", "\\u4e2d", "\\ud83d\\ude00", "\\ud83d\\ude00\\ud83d\\ude00", "\\\"\\u0041"] {
+                let body = format!("{}{esc}", "a".repeat(k));
+                let dec: String = sonic_rs::from_str(&format!("\"{body}\"")).unwrap_or_default();
+                for (doc, path) in [(format!("\"{body}\""), vec![]), (format!("{{\"{body}\":1,\"z\":[\"{body}\"]}}"), vec![PathElem::Key(dec.clone())]), (format!("[\"{body}\",\"{body}\"] [\"{body}\"]"), vec![PathElem::Idx(1)])] {
+                    let r = all_entries(doc.as_bytes(), &path);
+                    let verdict = match (r, crate::p_cas::take_overruns()) {
+                        (Some(p), _) => format!("panic: {}", p.replace(['\t', '\n'], " ")),
+                        (None, Some(o)) => format!("heap overrun: {o}"),
+                        (None, None) => "true".into(),
+                    };
+                    out.count("escape at every fill level");
+                    out.case("expect", &["escapes of every width at every fill level of the scratch buffers: no panic, no write outside a heap block", &hex(doc.as_bytes())], &verdict, true);
+                }
+            }
+        }
     }
     // strings that end up quoted inside error messages, as a whole document and as a member name / variant name
     for t in [" at line 3", " at line \u{663}", " at line 1 column \u{b2}", "x at line \u{ff13} column \u{ff11}", " at line 12 column 7", " at line ", " at line 1 column "] {
